@@ -195,6 +195,12 @@ def apply_all(all_changes: List[Change], recorder: ChangeRecorder):
     sources: Dict[EnhancedAST, SourceFile] = {}
 
     for change in all_changes:
+        if getattr(change, "node", None) is None:
+            # the snapshot() call was not found in the source code (code which
+            # is executed from a string for example): the change can be
+            # reported but there is nothing which could be rewritten
+            continue
+
         if isinstance(change, Delete):
             node = cast(EnhancedAST, change.node).parent
             if isinstance(node, ast.keyword):
